@@ -21,7 +21,7 @@ from concurrent.futures import Future
 from concurrent.futures import ThreadPoolExecutor
 
 
-class IllegalStateException(BaseException):
+class IllegalStateException(Exception):
     """This is raised when we are in an incompatible state."""
 
     pass
